@@ -225,6 +225,8 @@ class Recogniser {
       if (opt.nan && ext == "NaN") { m = MValue::f64(std::numeric_limits<double>::quiet_NaN()); return true; }
       if (opt.inf && (ext == "Infinity" || ext == "+Infinity")) { m = MValue::f64(std::numeric_limits<double>::infinity()); return true; }
       if (opt.inf && ext == "-Infinity") { m = MValue::f64(-std::numeric_limits<double>::infinity()); return true; }
+      // the exact spelling of the option that is NOT enabled stays what it is without the options: not JSON
+      if (ext == "NaN" || ext == "Infinity" || ext == "+Infinity" || ext == "-Infinity") return fail(s, INVALID);
       return fail(s, ANY, "letter-run-with-nan-or-infinity-enabled");
     }
     q = p;
